@@ -127,7 +127,7 @@ TEXT = {
     },
     "C18": {
         "level": "Theorems (Props/C18.lean): snapshot_restores (load(fresh, save s) = s for every content), snapshot_equiv (every continuation on every token), "
-                 "snapshot_keeps_policy_order, save_refused_when_dirty, authorize_sets_dirty / query_sets_dirty (on every path, also when the evaluation stops with an error: finding D25), save_refused_after_authorize / _after_query, snapshot_build_then_resolve (symbol re-indexing), policies_roundtrip, "
+                 "snapshot_keeps_policy_order, save_refused_when_dirty, authorize_sets_dirty / query_sets_dirty (on every path, also when the evaluation stops with an error: finding D25), save_refused_after_authorize / _after_query, Props/C18Gate.lean (finding D26): snapshotDeclared is what LoadPolicies now checks (snapshotDeclared_as_block: the scratch block handed to checkDeclaredSymbols), resolveSnapshot_iff (the model's reading accepts exactly the snapshots that have the right shape and pass that gate), built_snapshot_declared (the gate never refuses what SerializePolicies writes), nine proved D26 witnesses, snapshot_build_then_resolve (symbol re-indexing), policies_roundtrip, "
                  "load_rejects_other_versions. Tied by save/load inside AUTHSEQ histories (same and different token), byte-exact SNAP decode/re-encode of "
                  "SerializePolicies output by the Lean model, and malformed snapshots (no panic).",
         "note": COMMON_NOTE + "Fresh target authorizer only, as the property states.",
